@@ -114,6 +114,85 @@ class MacroCall(Rewrite):
         return _splice(text, edits)
 
 
+
+class WriteMacro(Rewrite):
+    """R-write: `write!(w, "lit{}lit{:04x}", a, b)` => `{ w.write_str("lit")?; w.write_disp(a)?; w.write_str("lit")?; w.write_hex04(b)?; Ok(()) }`
+    produced by a tiny format-string compiler ({} {:04} {:04x} {:x} only; anything else is a lost anchor => exit 2).
+    `writeln!` appends a final write_str("\n"). The per-placeholder shim methods carry trusted specs."""
+    rule = 'R-write'
+    METHODS = {'': 'write_disp', ':04': 'write_dec04', ':04x': 'write_hex04', ':x': 'write_hex', ':?': None}
+
+    def __init__(self, count='*', ok='Ok(())'):
+        self.count, self.ok = count, ok
+
+    def apply(self, text, log):
+        toks = code_tokens(text)
+        edits = []; n = 0
+        i = 0
+        while i < len(toks) - 2:
+            if toks[i].text in ('write', 'writeln') and toks[i + 1].text == '!' and toks[i + 2].text == '(':
+                c = match_close(toks, i + 2)
+                # split args at depth-0 commas
+                args, cur, d = [], [], 0
+                for t in toks[i + 3:c]:
+                    if t.text in OPEN: d += 1
+                    elif t.text in CLOSE: d -= 1
+                    if t.text == ',' and d == 0:
+                        args.append(cur); cur = []
+                    else:
+                        cur.append(t)
+                if cur: args.append(cur)
+                if len(args) < 2 or len(args[1]) != 1 or args[1][0].kind != 'str' or not args[1][0].text.startswith('"'):
+                    raise AnchorLost('R-write: unsupported write! shape')
+                w = text[args[0][0].start:args[0][-1].end]
+                fmt = args[1][0].text[1:-1]
+                vals = [text[a[0].start:a[-1].end] for a in args[2:]]
+                parts = re.split(r'(\{[^{}]*\})', fmt.replace('{{', '\x00').replace('}}', '\x01'))
+                out = []
+                vi = 0
+                for part in parts:
+                    if part.startswith('{') and part.endswith('}'):
+                        spec = part[1:-1]
+                        m = self.METHODS.get(spec)
+                        if m is None or vi >= len(vals):
+                            raise AnchorLost(f'R-write: unsupported placeholder {part}')
+                        out.append(f'{w}.{m}({vals[vi]})?;'); vi += 1
+                    elif part != '':
+                        lit = part.replace('\x00', '{').replace('\x01', '}')
+                        out.append(f'{w}.write_str("{lit}")?;')
+                if toks[i].text == 'writeln':
+                    out.append(f'{w}.write_str("\\n")?;')
+                if vi != len(vals):
+                    raise AnchorLost('R-write: argument count mismatch')
+                edits.append((toks[i].start, toks[c].end, '{ ' + ' '.join(out) + ' ' + self.ok + ' }')); n += 1
+                i = c + 1; continue
+            i += 1
+        ok = (self.count == '*') or (self.count == '+' and n >= 1) or (self.count == n)
+        if not ok:
+            raise AnchorLost(f'rewrite R-write expected {self.count} write!/writeln! but found {n}')
+        log.append((self.rule, 'write!/writeln! compiled to write_* calls', n))
+        return _splice(text, edits)
+
+
+class CallSub(Rewrite):
+    """Replace every call `path(...)` (path given as token text, e.g. 'InputValueError::from') by `new`."""
+    def __init__(self, path, new, rule='R-msg', count='*'):
+        self.path, self.new, self.rule, self.count = path, new, rule, count
+    def apply(self, text, log):
+        toks = code_tokens(text)
+        pat = pat_tokens(self.path)
+        edits = []; n = 0
+        for a, b in find_seq(toks, pat):
+            if b < len(toks) and toks[b].text == '(':
+                c = match_close(toks, b)
+                edits.append((toks[a].start, toks[c].end, self.new)); n += 1
+        ok = (self.count == '*') or (self.count == '+' and n >= 1) or (self.count == n)
+        if not ok:
+            raise AnchorLost(f'rewrite {self.rule} expected {self.count} call(s) of `{self.path}` but found {n}')
+        log.append((self.rule, f'{self.path}(..) => {self.new}', n))
+        return _splice(text, edits)
+
+
 class DropNestedFn(Rewrite):
     """Remove a nested `fn name` item from a body (it is extracted separately, hoisted)."""
     rule = 'R-hoist'
@@ -203,10 +282,10 @@ class Unit:
         self.search_cases = []     # (label substring, replay case) for witness search after a Verus failure
 
     # -- trusted / spec text
-    def prelude(self, name):
+    def prelude(self, name, tag='trusted'):
         p = os.path.join(HERE, 'prelude', name + '.rs')
-        c = Chunk('trusted', 'prelude/' + name)
-        c.add(open(p).read(), 'trusted')
+        c = Chunk(tag, 'prelude/' + name)
+        c.add(open(p).read(), tag)
         self.chunks.append(c)
 
     def trusted(self, text, label='unit-local shim'):
@@ -310,6 +389,13 @@ class Unit:
             edits.append((pos, pos, '\n' + M + 'proof\x01' + text.strip('\n') + '\x02\n'))
         if head_proof:
             edits.append((1, 1, '\n' + M + 'proof\x01' + head_proof.strip('\n') + '\x02\n'))
+        # @REVEALS@ in spliced proof text => reveal_strlit(..) for every string literal of the (rewritten) real body
+        lits = []
+        for t in toks:
+            if t.kind == 'str' and t.text.startswith('"') and t.text not in lits:
+                lits.append(t.text)
+        reveals = ' '.join(f'reveal_strlit({l});' for l in lits)
+        edits = [(a, b, x.replace('@REVEALS@', reveals)) for a, b, x in edits]
         body = _splice(body, edits)
 
         c = Chunk('real', label, meta=dict(file=file, line=it.line, kind='fn', path=list(used_path),
@@ -384,7 +470,7 @@ class Unit:
     # -- assembly
     def assemble(self, canary=False):
         """Returns (text, linemap) ; linemap[line_no(1-based)] = (chunk_index, part, is_canary_copy)."""
-        out = ['use vstd::prelude::*;', 'verus! {', '']
+        out = ['use vstd::prelude::*;', '#[allow(unused_imports)] use std::fmt::Write;', '#[allow(unused_imports)] use std::fmt;', 'verus! {', '']
         lm = {}
         def emit(ci, ch, rename=None, extra_ensures=None):
             lines = list(ch.lines)
